@@ -33,6 +33,9 @@ type Ctx struct {
 	cha           *callgraph.Graph
 	fnInfo        map[*ssa.Function]*fnInfo
 	fileShape     *fileReaderShape
+	expandedPred  map[*ssa.Call]bool
+	deepFacts     bool
+	predPureCache map[*ssa.Function]bool
 	maskSh        *maskShape
 	callersOf     map[*ssa.Function][]ssa.CallInstruction
 	allFuncs      map[*ssa.Function]bool
